@@ -321,8 +321,8 @@ class CrossKey(Case):
     prop = 'C10'
     name = 'C10.crosskey'
     timeout_s = 600
-    bounds = ('AES with concrete key pairs (k, k zero-extended to 24 and 32 bytes; all-zero keys of the three sizes; identical keys) and DES with parity-twin keys: first object encrypts, second object '
-              'encrypts/decrypts a SYMBOLIC block == FIPS-197 / FIPS 46-3 reference (leaves as in C02)')
+    bounds = ('AES with concrete key pairs (k, k zero-extended to 24 and 32 bytes; all-zero keys of the three sizes; identical keys), DES with parity-twin keys, Serpent with a key and its zero-extension / its padded equivalent / itself, Threefish-256 with the same key under two tweaks and two keys under one tweak: first object encrypts, second object '
+              'encrypts/decrypts a SYMBOLIC block == reference cipher (leaves as in C02)')
 
     @property
     def uf_concrete(self):
@@ -336,31 +336,55 @@ class CrossKey(Case):
                 yield dict(cipher='aes', k1=k1, k2=k2, dir=d)
         for k1, k2 in (('0123456789abcdef', '0022446688aaccee'), ('0022446688aaccee', '0123456789abcdef')):
             yield dict(cipher='des', k1=k1, k2=k2, dir='enc')
+        # Serpent: a short key and the 256-bit key it is padded to are equivalent BY DESIGN (1 bit then zeros) - a cache may serve
+        # either; the same bytes zero-extended are a DIFFERENT key.  Threefish: same key under two tweaks.
+        s16 = '0f1e2d3c4b5a69788796a5b4c3d2e1f0'
+        for k1, k2 in ((s16, s16 + '00' * 16), (s16 + '00' * 16, s16), (s16, s16 + '01' + '00' * 15), (s16, s16)):
+            for d in ('enc', 'dec'):
+                yield dict(cipher='serpent', k1=k1, k2=k2, dir=d)
+        t1, t2 = '00' * 16, '01' + '00' * 15
+        for d in ('enc', 'dec'):
+            yield dict(cipher='threefish', k1=s16 * 2, k2=s16 * 2, t1=t1, t2=t2, dir=d)
+            yield dict(cipher='threefish', k1=s16 * 2, k2='00' * 32, t1=t1, t2=t1, dir=d)
+
+    BL = {'aes': 16, 'des': 8, 'serpent': 16, 'threefish': 32}
+    REF = {'aes': 'aes128', 'des': 'des', 'serpent': 'serpent', 'threefish': 'threefish256'}
 
     def mk(self, shape, src):
-        return (src.bytes('B', 16 if shape['cipher'] == 'aes' else 8), src.bytes('B0', 16 if shape['cipher'] == 'aes' else 8))
+        n = self.BL[shape['cipher']]
+        return (src.bytes('B', n), src.bytes('B0', n))
 
     def stubs(self, shape):
         from symx.harness import patched
         from props import c02
-        return patched(c02.patches_for('aes128' if shape['cipher'] == 'aes' else 'des'))
+        return patched(c02.patches_for(self.REF[shape['cipher']]))
 
     def impl(self, shape, args):
         k1, k2 = bytes.fromhex(shape['k1']), bytes.fromhex(shape['k2'])
-        if shape['cipher'] == 'aes':
-            from crysp.aes import AES as C
+        c = shape['cipher']
+        if c == 'threefish':
+            from crysp.threefish import Threefish
+            a = Threefish(k1, bytes.fromhex(shape['t1']))
+            a.enc(args[1])
+            b = Threefish(k2, bytes.fromhex(shape['t2']))
         else:
-            from crysp.des import DES as C
-        a = C(k1)
-        a.enc(args[1])
-        b = C(k2)
+            if c == 'aes':
+                from crysp.aes import AES as C
+            elif c == 'des':
+                from crysp.des import DES as C
+            else:
+                from crysp.serpent import Serpent as C
+            a = C(k1)
+            a.enc(args[1])
+            b = C(k2)
         return b.enc(args[0]) if shape['dir'] == 'enc' else b.dec(args[0])
 
     def spec(self, shape, args):
         from props import c02
         k2 = bytes.fromhex(shape['k2'])
-        sh = dict(cipher='aes128' if shape['cipher'] == 'aes' else 'des')
-        return _b(c02.ref_crypt(sh, list(k2), None, list(args[0]), shape['dir'] == 'dec', self.symbolic))
+        sh = dict(cipher=self.REF[shape['cipher']])
+        t = list(bytes.fromhex(shape['t2'])) if shape['cipher'] == 'threefish' else None
+        return _b(c02.ref_crypt(sh, list(k2), t, list(args[0]), shape['dir'] == 'dec', self.symbolic))
 
 
 register(History())
